@@ -477,6 +477,13 @@ def gen_dsp(rng):
         else:
             l = parents.line("e%d" % rng.randrange(nE), "e%d" % rng.randrange(nE))
             if l: out.append(l)
+    if nE >= 2 and rng.random() < 0.25:
+        # a notification without an entry ahead of a watched entity's (seeded P03): all despawn reactors of A are revoked
+        # (its tracker stays), A dies, then the still-watched B dies, one poll
+        a, b = rng.sample(range(nE), 2); d = rng.randrange(g.ndefs)
+        out += ["top acts 2", "on r %d dsp:e%d" % (d, a), "on p %d dsp:e%d" % (d, b), "top acts 1", "revoke t%d" % nT,
+                "top wdespawn e%d" % a, "top wdespawn e%d" % b, "top poll"]
+        nT += 1; nS += 2
     if rng.random() < 0.3:
         # entity id reuse: a watched entity dies by world access (nothing polls), the next spawn gets its slot with a new
         # generation, and a despawn reactor is registered on the newcomer before the death is polled; then the newcomer dies
@@ -556,7 +563,18 @@ def gen_wr(rng):
     (and others) added to world reactor 0, then — in one batch, so before the next poll — the entity despawned and the
     trigger removed again, in either order; or the removal first and the despawn in a later batch."""
     text = gen_mix(rng, wr_prob=1.0, weights=dict(wr=4), body_weights=dict(wr=2))
-    if rng.random() < 0.5: return text
+    y = rng.random()
+    if y < 0.4: return text
+    if y < 0.55:
+        # redundant removes (the same trigger twice, a trigger that was never added), then a genuine one: it must still stop
+        # the reactor (seeded N04: a request counter that redundant removes drain)
+        a, b = rng.sample(["bc:0", "bc:1", "res:0", "res:1"], 2)
+        out = ["top acts 1", "wradd 0 %s" % a, "top acts 1", "wrremove 0 %s" % a, "top acts 1", "wrremove 0 %s" % a,
+               "top acts 1", "wradd 0 %s" % b, "top acts 1", "wrremove 0 %s" % rng.choice(["anyev:0", "mut:1", a]),
+               "top acts 1", "wrremove 0 %s" % b, "top acts 2",
+               ("broadcast %s 97" % b[3:]) if b.startswith("bc") else ("resmut %s" % b[4:]),
+               ("broadcast %s 98" % a[3:]) if a.startswith("bc") else ("resmut %s" % a[4:]), "top frameend"]
+        return text + "\n".join(out) + "\n"
     e = "e%d" % rng.randrange(3)
     extra = rng.choice(["", " bc:0", " res:1", " emut:%s:0" % e])
     out = ["top acts 1", "wradd 0 dsp:%s%s" % (e, extra)]
@@ -566,6 +584,29 @@ def gen_wr(rng):
     else: out += ["top wdespawn %s" % e, "top acts 1", "wrremove 0 dsp:%s" % e]
     out += ["top frameend"]
     if rng.random() < 0.5: out += ["top acts 1", "broadcast 0 99", "top frameend"]
+    return text + "\n".join(out) + "\n"
+
+def gen_stale(rng):
+    """C18: the mixed generator weighted towards despawns; a third of the time followed by a bundle of three or more triggers
+    whose entity-scoped members name a dead entity while another member does not (seeded O01): the live member must be
+    registered and fire."""
+    text = gen_mix(rng, weights=dict(life=5, trigger=4, control=4, register=2, revoke=2), body_weights=dict(life=4, control=3, trigger=3))
+    y = rng.random()
+    if y < 0.2:
+        # the source of a reaction dies between scheduling and delivery (seeded Q04): several listeners of one insertion /
+        # mutation, the first of which despawns the entity; the later ones must still run (they are alive)
+        nd = sum(1 for l in text.split("\n") if l.startswith("def "))
+        kind, fire = rng.choice([("ins", "insert e1 0 7"), ("mut", "mutate e1 0 7")])
+        out = ["def 0 1", "run 1", "despawn e1", "def 0 1", "run 0",
+               "top acts 5", "spawn", "insert e1 0 1", "on p %d %s:0" % (nd, kind), "on p %d %s:0" % (nd + 1, kind), "on p %d e%s:e1:0" % (nd + 1, kind),
+               "top acts 1", fire, "top frameend"]
+        return text + "\n".join(out) + "\n"
+    if y >= 0.53: return text
+    mid = rng.choice(["bc:0", "bc:1", "res:0", "eev:e1:0"])
+    ts = rng.choice(["eev:e0:0 %s dsp:e0", "erem:e0:1 %s eins:e0:0", "emut:e0:0 %s eev:e0:1", "dsp:e0 %s dsp:e0"]) % mid
+    fire = {"bc:0": "broadcast 0 96", "bc:1": "broadcast 1 96", "res:0": "resmut 0", "eev:e1:0": "entevent e1 0 96"}[mid]
+    out = ["top wdespawn e0", "top acts 1", "on %s 0 %s" % (rng.choice("pcr"), ts), "top acts 1", fire, "top frameend",
+           "top acts 1", fire.replace("96", "95"), "top frameend"]
     return text + "\n".join(out) + "\n"
 
 def gen_cascade(rng):
@@ -608,6 +649,30 @@ def gen_cascade(rng):
         elif y < 0.8: out += ["top acts 1", "broadcast 1 %d" % g.newpid()]
         else: out.append("top gc")
     out.append("top frameend")
+    return "\n".join(out) + "\n"
+
+def gen_deepchain(rng):
+    """C09/C02: a chain of 33-40 ordinary systems, each of which only runs the next one in-line, and at the bottom a system
+    that targets itself (postponed) and then a sibling, or two systems that target each other: postponement and replay
+    order at a nesting depth no other profile reaches (seeded Q07: past a fixed depth, deferred commands were queued
+    instead of applied in-line)."""
+    g = G(rng); out = []
+    n = rng.randint(33, 40)
+    for k in range(n): out += ["def 0 1", "run 1", "run s%d" % (k + 1)]
+    z, w = n, n + 1
+    def msg(t):
+        x = rng.random()
+        if x < 0.5: return "run s%d" % t
+        if x < 0.8: return "sysevent s%d 0 %d" % (t, g.newpid())
+        return "broadcast 0 %d" % g.newpid()
+    if rng.random() < 0.6:
+        out += ["def 0 2", "run 3", msg(z), msg(w), msg(z), "run 0", "def 0 1", "run 0"]
+    else:
+        out += ["def 0 2", "run 2", msg(w), msg(w), "run 1", msg(w), "def 0 2", "run 2", msg(z), msg(w), "run 0"]
+    setup = ["spawnsys %d" % d for d in range(n + 2)]
+    if rng.random() < 0.5: setup.append("with p s%d bc:0" % z)
+    out.append("top acts %d" % len(setup)); out += setup
+    out += ["top acts 1", "run s0", "top frameend"]
     return "\n".join(out) + "\n"
 
 def gen_deeprec(rng):
@@ -1158,10 +1223,11 @@ PROFILES = {
     "sigrace": gen_sigrace,
     "appreact": gen_appreact,
     "deeprec": gen_deeprec,
+    "deepchain": gen_deepchain,
     "access2": gen_access2,
     "access": lambda rng: gen_mix(rng, weights=dict(access=6, trigger=5, register=1.5), body_weights=dict(access=4, trigger=4)),
     "once": lambda rng: gen_mix(rng, weights=dict(register=3, trigger=6, revoke=2, life=1), body_weights=dict(trigger=5, register=1.5, revoke=1)),
-    "stale": lambda rng: gen_mix(rng, weights=dict(life=5, trigger=4, control=4, register=2, revoke=2), body_weights=dict(life=4, control=3, trigger=3)),
+    "stale": lambda rng: gen_stale(rng),
     "removal": lambda rng: gen_mix(rng, weights=dict(life=5, trigger=5, register=2), body_weights=dict(life=3, trigger=4)),
 }
 
